@@ -121,9 +121,11 @@ CLAIMS = {
         text='(1) Within the shape bound: different source/argument ids, scripts, strong variables, strong tools (id, path, libs), fingerprint or platform never give the same Build-Id pre-image; the variant of a weakly used '
              'tool does not enter it. (2) A workspace populates a file archive; after any of 11 edits a second invocation runs in a fresh workspace at another location or in the same one with download mode no/yes/deps '
              '(upload on/off), then a third one (edit reverted or not, any download mode), optionally aborted by a failing step (quick: package steps) and repeated with any download mode: after every completed invocation '
-             'each package that was produced, downloaded or declared up to date equals the purely local clean build of that project state, and with identical recipes at another location and --download=yes no build or package step is executed.',
+             'each package that was produced, downloaded or declared up to date equals the purely local clean build of that project state, and with identical recipes at another location and --download=yes no build or package step is executed. '
+             '(3) Forced / selective modes: the second invocation with --download=forced | forced-deps | forced-fallback | packages=lib | packages=^app$ after any edit, the third with any of the 8 modes (quick: yes or the same): a forced invocation may fail, '
+             'whatever completed equals the local build, identical recipes elsewhere + forced / forced-fallback succeed without a build step.',
         design_ref='DESIGN.md section 4, C07',
-        note='Trusted: SHA-1 injectivity, the script model. Outside: live-build-id prediction and the restart after a wrong prediction (seeded change C07-m2 is not detected), forced download modes, packages= / layer modes, '
+        note='Trusted: SHA-1 injectivity, the script model. Outside: live-build-id prediction and the restart after a wrong prediction (seeded change C07-m2 is not detected), --download-layer, '
              'other transports, fingerprint script execution, emulated host fingerprints.'),
     'C11': dict(
         engine='X+Z',
